@@ -28,6 +28,8 @@ BATCHES = {
     "Bbatch": ((), (2,), (), ()),
     "bcast": ((2,), (1,), (2,), ()),
     "Ebatch": ((), (), (2,), ()),
+    "A22": ((2, 2), (), (), ()),           # two non-trivial batch dimensions
+    "B22": ((), (2, 2), (), ()),
 }
 
 
@@ -221,6 +223,13 @@ def configs(tier):
     if tier == "thorough":
         add("krylov/bicgstab/scalar/posdef/AE/Ebatch/c2/it1", krylov, method="bicgstab", n=2, ncols=2, posdef=True, max_niter=1,
             opkind="scalar", withE=True, batch="Ebatch", opts={"budget_s": 1200, "max_paths": 400})
+    # two non-trivial batch dimensions (gmres flattens the batch of its Hessenberg matrix: known finding C01-gmres-batch2)
+    for method in ("cg", "bicgstab", "gmres"):
+        add("krylov/%s/scalar/posdef/A/A22/it1" % method, krylov, method=method, n=2, ncols=1, posdef=True, max_niter=1,
+            opkind="scalar", batch="A22")
+        if method != "bicgstab" or tier == "thorough":
+            add("krylov/%s/scalar/posdef/A/B22/it1" % method, krylov, method=method, n=2, ncols=1, posdef=True, max_niter=1,
+                opkind="scalar", batch="B22", opts={"budget_s": 600} if method == "bicgstab" else None)
     # normal equations on a fixed non-normal matrix, enough iterations for exact convergence
     for method in ("cg", "gmres"):
         add("krylov/%s/fixed_nonsym0/normal/A/it2" % method, krylov, method=method, n=2, ncols=1, posdef=False, max_niter=2,
